@@ -46,7 +46,7 @@ PROPERTIES = {
     "C03": {
         "harness_modules": ["contracts.assume", "contracts.c03", "contracts.shapes"],
         "harness_filter": only("AtLeast.assume", "variable.assume", "variable.evaluate", "lemma.ival_wf", "lemma.total_const",
-                               "AtLeast.evaluate", "shape.evaluate"),
+                               "AtLeast.evaluate", "shape.evaluate", "shape.fixed-node"),
         "rt": ["rt.logic:c03_evaluate_glue", "rt.logic:history_sequences"],
         "level": "other",
         "assumptions": S_ALL,
@@ -55,17 +55,22 @@ PROPERTIES = {
                        "override clause); evaluate()/evaluate_propositions() (real source) against the contracts of assume and "
                        "flatten: evaluate(d) == top entry == ival(self, d). ASSUMED: the flatten contract (the list contains the "
                        "node itself; in the assumed model every node with that id has its bounds). bounded stand-ins: the "
-                       "same glue end to end incl. overrides of sub-proposition ids, and repeated queries on one object END TO END (contracts.shapes): the real recursive code on concrete tree shapes (flat, nested, shared leaf[, depth 3]) x all sign assignments with symbolic thresholds, leaf bounds and interpretations, no callee contracts: evaluate(e) and the top entry of evaluate_propositions(e) equal the truth value.",
+                       "same glue end to end incl. overrides of sub-proposition ids, and repeated queries on one object END TO END (contracts.shapes): the real recursive code on concrete tree shapes (flat, nested, shared leaf[, depth 3]) x all sign assignments with symbolic thresholds, leaf bounds and interpretations, no callee contracts: evaluate(e) and the top entry of evaluate_propositions(e) equal the truth value; shape.fixed-node: the same with one compound node (the model's own id or an inner one) fixed to a symbolic constant as int / (k,k) / Bounds(k,k).",
     },
     "C04": {
-        "harness_modules": ["contracts.c04", "contracts.c05"],
+        "harness_modules": ["contracts.c04", "contracts.c05", "contracts.c16"],
+        "harness_filter": lambda h: type(h).__module__ in ("contracts.c04", "contracts.c05") or h.name in (
+            "json:AtLeast", "json:AtMost", "json:All", "json:Any", "json:Xor", "json:XNor", "json:Imply"),
         "rt": ["rt.logic:c04_json_and_rules"],
         "level": "other",
         "assumptions": S_ALL + ["children of a node are pairwise distinct under (hash, ==) (validated models: no node lists a child twice)"],
         "explanation": "deductive: All/Any/AtLeast/AtMost/Xor/XNor/Imply/Not constructors (real source) over an abstract duplicate-free "
                        "child list with 0/1 truth values: truth function of the built node == documented connective; nesting by "
-                       "the modular argument (negate's contract from C05 for Imply/Not/XNor). bounded stand-in: the JSON and "
-                       "rule-dictionary (from_cicJE) routes.",
+                       "the modular argument (negate's contract from C05 for Imply/Not/XNor). JSON route: the round-trip obligations of "
+                       "C16 (json:<class>: from_json(to_json(K(children, k))) has K's truth function, every child count, symbolic "
+                       "threshold) composed with the constructor obligations above -- a record some constructor can emit is read "
+                       "back with the documented meaning. bounded stand-in: hand-written JSON records (not emitted by to_json) and the "
+                       "rule-dictionary (from_cicJE) route incl. groups of one component and explicit group ids.",
     },
     "C05": {
         "harness_modules": ["contracts.c05", "contracts.shapes"],
@@ -158,7 +163,7 @@ PROPERTIES = {
                            "'last' / 'min' / 'max' return the first / last non-zero, the smallest non-zero (0 if none) and the largest "
                            "entry of each line. bounded stand-in: 'shadow' (zeros, signs, ties, order incl. later rows above earlier, "
                            "strict dominance, priorities beyond 2**53), 'prio' / 'rank' (dense, order preserving), batched 3-D. ADDED: ranking (1-D, row-wise 2-D), prio/rank (1x2, 2x1, 2x2; 2x3, 3x2 thorough; both axes) and shadow (1-D n<=3, 2-D <=2x2; larger thorough) through the real Python code with symbolic entries; for shadow the compiled bit allocation is replaced by the executable form of its assumed contract A-rs2 (pyvc.rsmodel), which is validated against the compiled function at run time."},
-    "C14": {"harness_modules": ["contracts.c14"], "lean": True, "rt": ["rt.arrays:a_rs2_bit_allocation", "rt.config:c14_objectives"], "level": "other",
+    "C14": {"harness_modules": ["contracts.c14", "contracts.c14shape"], "lean": True, "rt": ["rt.arrays:a_rs2_bit_allocation", "rt.config:c14_objectives"], "level": "other",
             "assumptions": S_ALL + ["A-rs2: the weights come from puan_rspy.py_optimized_bit_allocation_64 (compiled Rust): assumed contract as "
                                     "an executable model (pyvc.rsmodel, see C13), validated against the compiled function at run time"],
             "explanation": "deductive: cc.Any.__init__ / cc.Xor.__init__ (real source, abstract duplicate-free boolean children of any "
@@ -166,7 +171,7 @@ PROPERTIES = {
                            "children are moved into an inner Any tagged prio = -2 and the default branch keeps exactly the default "
                            "child (partition), plain Any otherwise; the default is recorded. Lean: dominance_two_level. bounded "
                            "stand-in: default_prios, _vectors_from_prios through select (sequences, batches, named groups) and the "
-                           "lexicographic ranking of ALL pairs of feasible points of small configurators. ADDED: StingyConfigurator.default_prios (tag or -1 for every flattened node, over the assumed flatten contract) and ge_polyhedron_config._vectors_from_prios (the [default vector, user row] stack handed to the shadow compression; compression itself replaced by a recorder) under contract with replay. ADDED: the objective vector end to end -- the real _vectors_from_prios including the real shadow compression over the executable form of A-rs2 (2-3 columns, symbolic default levels in {-1,-2}, symbolic user priorities): sign, equal levels equal weights, dominance of every level over the sum of all lower levels (the premise of the Lean lemma dominance_two_level)."},
+                           "lexicographic ranking of ALL pairs of feasible points of small configurators (ids of every sort position; default lists of several entries). END TO END (contracts.c14shape): real cc.Xor/cc.Any/StingyConfigurator constructors, real flatten, default_prios and ge_polyhedron on a concrete three-rule configurator (default lists of one and two entries; configurator id sorting first / in the middle / last; plain rule with symbolic threshold, both signs): the non-default branch is exactly the items without the FIRST listed default, its column holds -2 in the default priority vector and every other column -1. ADDED: StingyConfigurator.default_prios (tag or -1 for every flattened node, over the assumed flatten contract) and ge_polyhedron_config._vectors_from_prios (the [default vector, user row] stack handed to the shadow compression; compression itself replaced by a recorder) under contract with replay. ADDED: the objective vector end to end -- the real _vectors_from_prios including the real shadow compression over the executable form of A-rs2 (2-3 columns, symbolic default levels in {-1,-2}, symbolic user priorities): sign, equal levels equal weights, dominance of every level over the sum of all lower levels (the premise of the Lean lemma dominance_two_level)."},
     "C15": {"harness_modules": ["contracts.c15", "contracts.c14"],
             "harness_filter": only("AtLeast.solve", "ge_polyhedron_config.select", "StingyConfigurator.select",
                                    "ge_polyhedron_config._vectors_from_prios"),
